@@ -781,6 +781,12 @@ pub fn run_check(def: &CheckDef, tier: Tier, seed: u64) -> i32 {
             "inconclusive": total.inconclusive,
             "shrink_evaluations": total.shrink_evals,
             "shards": nshards,
+            "enumerated_families": def.families.iter().filter(|f| f.enumerate.is_some()).map(|f| serde_json::json!({
+                "family": f.name,
+                "space": (f.cases)(Tier::Thorough),
+                "explored": total.family_cases.get(f.name).cloned().unwrap_or(0),
+                "complete": tier == Tier::Thorough && total.family_cases.get(f.name).cloned().unwrap_or(0) == (f.cases)(Tier::Thorough),
+            })).collect::<Vec<_>>(),
             "exhaustive": false,
         },
         "assumptions": def.assumptions,
